@@ -70,7 +70,9 @@ func reactions() []reaction {
 			return one(m)
 		}},
 		{"foreign", func(rng *Rng, a uint16, g []byte) [][]byte {
-			return one(simGet(a+1+uint16(rng.Intn(7)), 0, rng.Bytes(2)))
+			// a valid response for another register; its flag byte may well be an error flag
+			flag := []byte{0, 0, 1, 2, 4, 0x80}[rng.Intn(6)]
+			return one(simGet(a+1+uint16(rng.Intn(7)), flag, rng.Bytes(rng.Intn(3))))
 		}},
 		{"partial", func(rng *Rng, a uint16, g []byte) [][]byte {
 			return one(append([]byte(nil), g[:1+rng.Intn(len(g)-1)]...))
